@@ -1,6 +1,6 @@
 (* C15 — TDL text and TDL objects round-trip (syntax level). *)
 From Coq Require Import List NArith ZArith Bool.
-From PyD Require Import Base.Str Model.Tdl Proofs.TdlP.
+From PyD Require Import Base.Str Model.Hier Model.Iso Model.Tdl Proofs.TdlP Model.Tfs Proofs.TfsP.
 Import ListNotations.
 
 (* parsing the tokens the formatter prints for any term tree (identifiers,
@@ -44,6 +44,21 @@ Print Assumptions C15_letter_set_roundtrip.
 Theorem C15_affix_pattern_roundtrip : forall p, pat_ok p -> split_pat (pat_text p) = Some p.
 Proof. exact split_pat_text. Qed.
 Print Assumptions C15_affix_pattern_roundtrip.
+
+(* feature structures: a value stored under a dotted path is retrieved by
+   that path in any letter case *)
+Theorem C15_path_access_any_case : forall path f v f' path',
+  setitem f path v = Some f' -> map ascii_upper path' = map ascii_upper path ->
+  getitem f' path' = Some (FLeaf v).
+Proof. exact get_set_same. Qed.
+Print Assumptions C15_path_access_any_case.
+
+(* ... and a path that leaves the assigned path at some position is undisturbed *)
+Theorem C15_path_assignment_frame : forall path f v f' pre q qs k rest,
+  path = pre ++ k :: rest -> setitem f path v = Some f' -> ascii_upper q <> ascii_upper k ->
+  getitem f' (pre ++ q :: qs) = getitem f (pre ++ q :: qs).
+Proof. exact get_set_diverge. Qed.
+Print Assumptions C15_path_assignment_frame.
 
 (* non-vacuity *)
 Theorem C15_hypotheses_satisfiable :
